@@ -17,7 +17,7 @@ use std::cell::Cell;
 use std::sync::{Arc, Condvar, Mutex};
 
 pub const INPUTS: [&str; 9] = [
-    "---\ntitle: T\ntime: 1h\nprep time: 5 min\n---\nMix @a{1%kg}.\n",
+    "---\ntitle: T\ntime: 1 hour\nprep time: 5 min\n---\nMix @a{1%kg}.\n",
     ">> time: 10\n>> prep time: 5\n>> cook time: 3\nstep\n",
     ">> [mode]: components\n@a{1}\n>> [mode]: steps\nUse @a and @&a{2}.\n>> [duplicate]: ref\n",
     "Mix @flour{200%g} and #bowl.\n\nRest @&(~1)dough{} and @&flour{100%g} in #&bowl ~{1%h}.\n",
@@ -28,22 +28,33 @@ pub const INPUTS: [&str; 9] = [
     ">> prep time: 5\n>> cook time: 3\n>> time: 10\n>> tags: a, b\nstep @x{1} @&x{2}\n",
 ];
 
+pub const CFGS: usize = 3;
+
 fn parser_for(cfg: usize) -> CooklangParser {
     match cfg {
         0 => CooklangParser::new(Extensions::all(), Converter::bundled()),
-        _ => CooklangParser::canonical(),
+        1 => CooklangParser::canonical(),
+        _ => {
+            // bundled units with the minute unit renamed: a second converter that disagrees with the first
+            use cooklang::convert::{ConverterBuilder, UnitsFile};
+            let layer: UnitsFile = toml::from_str("[extend]\nprecedence = \"override\"\n[extend.units]\nmin = { names = [\"minuto\"], symbols = [\"mn\"], aliases = [] }\n[[quantity]]\nquantity = \"time\"\nbest = [\"s\", \"h\", \"mn\", \"d\"]\n").expect("layer parses");
+            let conv = ConverterBuilder::new().with_units_file(UnitsFile::bundled()).and_then(|b| b.with_units_file(layer)).and_then(|b| b.finish()).unwrap_or_else(|_| Converter::bundled());
+            CooklangParser::new(Extensions::all(), conv)
+        }
     }
 }
 
-/// number of calls in the alphabet: every input x {parse, parse_metadata, parse + scale + convert}
-pub const CALLS: usize = INPUTS.len() * 3;
+/// number of calls in the alphabet: every input x {parse, parse_metadata, parse + scale + convert, parse with callbacks}
+pub const KINDS: usize = 4;
+pub const CALLS: usize = INPUTS.len() * KINDS;
 
 /// what one call observes. Calls are kept separate (not bundled into one
 /// observation) so that state leaking from one kind of call into the next is
 /// not hidden by happening identically in the reference.
 pub fn observe(p: &CooklangParser, call: usize) -> String {
-    let input = INPUTS[call / 3];
-    match call % 3 {
+    let input = INPUTS[call / KINDS];
+    match call % KINDS {
+        3 => exact_image(&crate::oracles::parse_with_callbacks(p, input)),
         0 => exact_image(&p.parse(input)),
         1 => {
             let m = p.parse_metadata(input);
@@ -68,9 +79,9 @@ pub fn fresh_main(cfg: usize, call: usize) {
 
 fn fresh_reference() -> Result<Vec<Vec<String>>, String> {
     let exe = std::env::current_exe().map_err(|e| e.to_string())?;
-    let mut out = vec![vec![String::new(); CALLS]; 2];
+    let mut out = vec![vec![String::new(); CALLS]; CFGS];
     let mut handles = Vec::new();
-    for cfg in 0..2 {
+    for cfg in 0..CFGS {
         for i in 0..CALLS {
             let exe = exe.clone();
             handles.push((cfg, i, std::thread::spawn(move || std::process::Command::new(exe).args(["c18-fresh", &cfg.to_string(), &i.to_string()]).output())));
@@ -118,7 +129,7 @@ fn decode_history(mut idx: u64, max_len: u32) -> Vec<usize> {
 
 fn check_history(reference: &[Vec<String>], shared: &[CooklangParser], h: &[usize], local: &mut Local) -> Vec<Violation> {
     let mut out = Vec::new();
-    for cfg in 0..2 {
+    for cfg in 0..CFGS {
         let clone = shared[cfg].clone();
         let fresh = parser_for(cfg);
         for (which, p) in [("shared instance", &shared[cfg]), ("clone", &clone), ("new instance", &fresh)] {
@@ -128,7 +139,7 @@ fn check_history(reference: &[Vec<String>], shared: &[CooklangParser], h: &[usiz
                 if got != reference[cfg][i] {
                     out.push(Violation::new(
                         "result depends on the history of the parser",
-                        format!("history {h:?} on the {which} (cfg {cfg}): call {step} (call {i} = input {} kind {}) differs from the fresh-process result; {}", i / 3, i % 3, diff_pos(&reference[cfg][i], &got)),
+                        format!("history {h:?} on the {which} (cfg {cfg}): call {step} (call {i} = input {} kind {}) differs from the fresh-process result; {}", i / KINDS, i % KINDS, diff_pos(&reference[cfg][i], &got)),
                         json!({"kind": "history", "history": h, "cfg": cfg}),
                     ));
                     return out;
@@ -370,10 +381,10 @@ fn explore(h: &Harness, reference: &[Vec<String>]) -> (u64, u64, usize, Vec<Viol
 }
 
 fn harnesses(tier: Tier) -> Vec<Harness> {
-    // a call is input * 3 + kind (0 parse, 1 parse_metadata, 2 parse + scale + convert)
-    let p = |i: usize| i * 3;
-    let m = |i: usize| i * 3 + 1;
-    let sc = |i: usize| i * 3 + 2;
+    // a call is input * KINDS + kind (0 parse, 1 parse_metadata, 2 parse + scale + convert, 3 parse with callbacks)
+    let p = |i: usize| i * KINDS;
+    let m = |i: usize| i * KINDS + 1;
+    let sc = |i: usize| i * KINDS + 2;
     let mut v = vec![
         Harness { name: "2 threads x 1 parse (references+intermediate | modes)", bodies: vec![vec![p(3)], vec![p(2)]], cfg: 0, bound: 2 },
         Harness { name: "2 threads x 1 parse (front matter | metadata + parse error)", bodies: vec![vec![p(0)], vec![p(4)]], cfg: 0, bound: 2 },
@@ -402,10 +413,14 @@ pub fn replay(case: &J) -> Vec<Violation> {
     match case["kind"].as_str().unwrap_or("") {
         "history" => {
             let h: Vec<usize> = case["history"].as_array().map(|a| a.iter().filter_map(|x| x.as_u64().map(|x| x as usize)).collect()).unwrap_or_default();
-            let shared = [parser_for(0), parser_for(1)];
+            let shared = [parser_for(0), parser_for(1), parser_for(2)];
             check_history(&reference, &shared, &h, &mut local)
         }
         "pull" => check_interleaved_pull(case["a"].as_u64().unwrap_or(0) as usize, case["b"].as_u64().unwrap_or(0) as usize, &mut local),
+        "stress" => {
+            init_stress_replay();
+            vec![]
+        }
         "schedule" => {
             cooklang::verif_hooks::set_yield(Some(yield_point));
             let bodies: Vec<Vec<usize>> = case["bodies"].as_array().map(|a| a.iter().map(|b| b.as_array().map(|b| b.iter().filter_map(|x| x.as_u64().map(|x| x as usize)).collect()).unwrap_or_default()).collect()).unwrap_or_default();
@@ -431,7 +446,7 @@ pub fn replay(case: &J) -> Vec<Violation> {
 
 pub fn run(tier: Tier) {
     let c = ctx();
-    c.set_rule("histories: every sequence of 1..=n calls (parse, parse_metadata, parse+scale+convert) over 9 inputs chosen to touch every piece of per-parse state (front matter, `>>` time-override bookkeeping, modes, duplicate mode, references, intermediate references, a parse-stage error that drains the iterator, inline quantities, fractions with scaling and conversion that force the lazily built fraction table) on one shared parser per configuration, repeated on a clone and on a new instance, all in one process; each call's complete observation (recipe JSON, ordered diagnostics with labels and hints, metadata-only parse, scaled+converted recipe) must equal the observation of a fresh subprocess whose first call it is; all ordered pairs of event-wise interleaved pull parsers; schedules: iterative context bounding over real threads sharing one parser, scheduling points at every token pulled and every event consumed (hook), all schedules with at most p preemptions; each thread's observations must equal the fresh-process reference; non-trivial = every history / schedule; distinct = distinct histories and schedules");
+    c.set_rule("histories: every sequence of 1..=n calls (parse, parse_metadata, parse+scale+convert, parse with metadata / recipe-reference callbacks) over 9 inputs chosen to touch every piece of per-parse state (front matter, `>>` time-override bookkeeping, modes, duplicate mode, references, intermediate references, a parse-stage error that drains the iterator, inline quantities, fractions with scaling and conversion that force the lazily built fraction table) on one shared parser per configuration, repeated on a clone and on a new instance, all in one process; each call's complete observation (recipe JSON, ordered diagnostics with labels and hints, metadata-only parse, scaled+converted recipe) must equal the observation of a fresh subprocess whose first call it is; all ordered pairs of event-wise interleaved pull parsers; schedules: iterative context bounding over real threads sharing one parser, scheduling points at every token pulled and every event consumed (hook), all schedules with at most p preemptions; each thread's observations must equal the fresh-process reference; non-trivial = every history / schedule; distinct = distinct histories and schedules");
     let reference = match fresh_reference() {
         Ok(r) => Arc::new(r),
         Err(e) => {
@@ -439,12 +454,12 @@ pub fn run(tier: Tier) {
             std::process::exit(2)
         }
     };
-    c.part(json!({"inputs": INPUTS, "configurations": ["all extensions + bundled units", "canonical"]}));
+    c.part(json!({"inputs": INPUTS, "configurations": ["all extensions + bundled units", "canonical", "all extensions + bundled units with the minute unit renamed"]}));
     // histories: run on ONE thread so that process-wide and thread-local state accumulates
     let depth = tier.pick(3, 4);
     let k = CALLS as u64;
     let total: u64 = (1..=depth).map(|l| k.pow(l)).sum();
-    let shared = [parser_for(0), parser_for(1)];
+    let shared = [parser_for(0), parser_for(1), parser_for(2)];
     let mut local = Local::for_replay();
     let t0 = std::time::Instant::now();
     let mut nviol = 0;
@@ -497,7 +512,74 @@ pub fn run(tier: Tier) {
         c.sample(json!({"harness": h.name, "threads": h.bodies, "preemption_bound": h.bound, "executions": execs}));
     }
     cooklang::verif_hooks::set_yield(None);
+    if !c.has_violations() {
+        stress_supplement(tier, &reference);
+    }
     c.note("states / transitions: history nodes plus scheduling points visited over all executions; traces_validated_against_impl: histories and complete schedules executed on the real parser");
     c.assume("threads are serialised by the explorer and switch only at the hook points (token pulled, event consumed) and at thread exit; races inside one token's processing and weak-memory effects are not explored");
     c.assume("the fresh-process reference is produced by this same binary started once per (configuration, input)");
+}
+
+/// Supplement, NOT part of the exhaustive claim: free-running real threads
+/// (no scheduler, so races inside one token's processing can happen) parse in
+/// parallel for a fixed number of rounds; every result must equal the
+/// single-threaded one. This samples schedules; a difference it finds is
+/// still a real violation of the property.
+fn stress_supplement(tier: Tier, _reference: &[Vec<String>]) {
+    const STRESS_INPUTS: [&str; 6] = [
+        "Add @salt… and 180 °C 😀 then #pot⸫ rest\n",
+        "Mix @flour{200%g}⸫ @water… #bowl… ~rest… 5 min ½ cup\n",
+        "---\ntitle: é\ntime: 1h\n---\n@a{1/2%cup} then @&a{0.333%cup} 350 F\n",
+        ">> prep time: 5\n>> cook time: 3\n>> time: 10\nstep @x{1} @&x{2}\n",
+        "@ñu… y más \\ñ 😀 @sal⸫ ¿qué? 20 min…\n",
+        "= A ⸫\n> nota… é\n\n~t{5%min}… 😀° @é{1}\n",
+    ];
+    let c = ctx();
+    let parser = Arc::new(parser_for(0));
+    let expected: Vec<String> = STRESS_INPUTS.iter().map(|s| exact_image(&parser.parse(s))).collect();
+    let threads = 8;
+    let rounds = tier.pick(1500, 12000);
+    let t0 = std::time::Instant::now();
+    let bad: Arc<Mutex<Option<(usize, String)>>> = Arc::new(Mutex::new(None));
+    let mut handles = Vec::new();
+    for t in 0..threads {
+        let (parser, expected, bad) = (parser.clone(), expected.clone(), bad.clone());
+        handles.push(std::thread::spawn(move || {
+            for r in 0..rounds {
+                let i = (r + t) % STRESS_INPUTS.len();
+                let got = match guarded(|| exact_image(&parser.parse(STRESS_INPUTS[i]))) {
+                    Ok(g) => g,
+                    Err(m) => format!("PANIC {m}"),
+                };
+                if got != expected[i] {
+                    let mut b = bad.lock().unwrap();
+                    if b.is_none() {
+                        *b = Some((i, got));
+                    }
+                    return;
+                }
+                if bad.lock().unwrap().is_some() {
+                    return;
+                }
+            }
+        }));
+    }
+    for h in handles {
+        let _ = h.join();
+    }
+    let total = threads as u64 * rounds as u64;
+    c.part(json!({"supplement (sampling, not part of the exhaustive claim)": "free-running threads", "threads": threads, "parses": total, "wall_s": t0.elapsed().as_secs_f64()}));
+    let found = bad.lock().unwrap().take();
+    if let Some((i, got)) = found {
+        c.violation(Violation::new(
+            "result depends on the thread interleaving (free-running threads)",
+            format!("{threads} free-running threads sharing one parser: input {:?} gave a result different from the single-threaded one; {}", STRESS_INPUTS[i], diff_pos(&expected[i], &got)),
+            json!({"kind": "stress", "input": STRESS_INPUTS[i]}),
+        ));
+    }
+}
+
+fn init_stress_replay() {
+    let reference: Vec<Vec<String>> = Vec::new();
+    stress_supplement(Tier::Thorough, &reference);
 }
